@@ -4,13 +4,15 @@ neither the later outputs nor the state (`RelocInvisible`: trivially true of the
 TOGETHER WITH the fact that makes the model faithful: the C state struct of the bundle, as laid out by the compiler
 for the current sources, has no pointer member, and all records nested in it are in the checked table
 (`no_pointer_members`, `nested_closed` in PropsStructs.lean).  The chunk-independence and get-then-continue theorems
-are in PropsModes / PropsAead / PropsAbsorb / PropsGen (imported below when present).
+are in PropsModes / PropsAead / PropsAbsorb / PropsGen / PropsBrng (imported below).
 -/
 import Bee2V.C10.PropsStructs
 import Bee2V.C10.Stmts
 import Bee2V.C10.PropsModes
 import Bee2V.C10.PropsAead
 import Bee2V.C10.PropsAbsorb
+import Bee2V.C10.PropsGen
+import Bee2V.C10.PropsBrng
 namespace Bee2V.C10
 open Bee2V.Gen.C10Structs
 
